@@ -8,6 +8,7 @@ import (
 	"sync"
 	"time"
 
+	"verif/internal/world"
 	"verif/internal/xlate"
 	"verif/tape"
 )
@@ -15,7 +16,7 @@ import (
 func init() {
 	commands["selftest"] = func(args []string) int {
 		if len(args) == 0 {
-			args = []string{"determinism", "xlate"}
+			args = []string{"determinism", "xlate", "oracle"}
 		}
 		rc := 0
 		for _, a := range args {
@@ -26,6 +27,10 @@ func init() {
 				}
 			case "xlate":
 				if r := selftestXlate(); r != 0 {
+					rc = r
+				}
+			case "oracle":
+				if r := selftestOracle(); r != 0 {
 					rc = r
 				}
 			default:
@@ -75,7 +80,10 @@ func selftestDeterminism() int {
 		ctx := &genCtx{prop: prop, tier: "quick", bins: buildGenBinaries(), kfs: loadKnownFindings()}
 		fn := genCases[prop]
 		const n = 24
-		type out struct{ hash, clause string; execs, steps int }
+		type out struct {
+			hash, clause string
+			execs, steps int
+		}
 		res := [2][n]out{}
 		var wg sync.WaitGroup
 		for rep := 0; rep < 2; rep++ {
@@ -272,4 +280,49 @@ func Main() string { c := make(chan struct{}); x := 0; go func() { x = 7; c <- s
 	{name: "range-nil-channel", want: []string{"deadlock"}, src: `func Main() string { var c chan int; for range c { }; return "unreachable" }`},
 	{name: "time-is-refused", refuse: true, src: `import "time"
 func Main() string { time.Sleep(1); return "" }`},
+}
+
+// selftestOracle: the in-process type-check oracle (go/types with a shared
+// source importer) must agree with go/packages (the go command's view) on
+// whether a world type-checks, on supported worlds, on worlds with an
+// unsupported constituent spliced in, and on worlds whose derived.gen.go has
+// been damaged.
+func selftestOracle() int {
+	ctx := &genCtx{prop: "C09", tier: "quick", bins: buildGenBinaries(), kfs: loadKnownFindings()}
+	defer cleanup()
+	bad := 0
+	n := 0
+	for i := 0; i < 60; i++ {
+		ts := tape.NewSet(tape.Mix(23, uint64(i)))
+		prof := drawProfile(ts.Fork("profile"), "quick")
+		w := world.Generate(ts.Fork("world"), prof)
+		if i%3 == 1 {
+			world.SpliceNegative(w, ts.Fork("splice"), -1)
+		}
+		dir := filepath.Join(ctx.bins.scratch, fmt.Sprintf("o%d", i))
+		files := w.Render()
+		writeWorld(dir, files)
+		runGoderive(ctx.bins.inst, dir, worldPkgs(w), &Plan{MapMode: "identity"}, 0)
+		if i%3 == 2 {
+			// damage the generated file: drop its last 40 bytes
+			p := filepath.Join(dir, "p", "derived.gen.go")
+			if b, err := os.ReadFile(p); err == nil && len(b) > 60 {
+				os.WriteFile(p, b[:len(b)-40], 0o644)
+			}
+		}
+		_, fast := typecheckWorld(dir, worldPkgs(w)...)
+		slow := typecheckEnv(dir, goEnv(), worldPkgs(w)...)
+		n++
+		if (len(fast) == 0) != (len(slow) == 0) {
+			bad++
+			fmt.Printf("selftest oracle: world %d: in-process oracle says %v, go/packages says %v\n", i, fast, slow)
+		}
+		os.RemoveAll(dir)
+	}
+	fmt.Printf("selftest oracle: %d worlds, %d disagreements between the in-process oracle and go/packages\n", n, bad)
+	if bad > 0 {
+		return 1
+	}
+	fmt.Println("selftest oracle: ok")
+	return 0
 }
